@@ -134,7 +134,7 @@ def run_unit(unit_path, repo, workdir, tier='quick', twins=True):
     gpath = os.path.join(workdir, name + '.rs')
     open(gpath, 'w').write(gen)
     r['generated'] = gpath
-    rlimit = 30 if tier == 'quick' else 60
+    rlimit = 50 if tier == 'quick' else 100
     results, errs, wall = run_verus(gpath, workdir, rlimit, 600 if tier == 'quick' else 1800)
     r['errors'] = errs
     verdict = classify(errs, results)
